@@ -166,7 +166,8 @@ def run_scenario(name: str, counters: bool, full_step=None) -> dict:
     d = scratch_dir(f"hivemc_ord_{name}_")
     try:
         path = builder(d)
-        rp = load(path)
+        init = scenarios.INIT_FUNCTIONS.get(name)
+        rp = load(path, init_functions=init() if init else None)
         sig = order_signature(rp)
         rec = Recorder(keep_states=full_step is not None)
         rp.e.reporter.add_handler(rec)
